@@ -32,11 +32,8 @@ def rev(prop, name, commit):
 rev("C05", "S1 julianDateToDatetime truncation", "b211f9b")
 rev("C11", "S1 julianDateToDatetime truncation", "b211f9b")
 rev("C01", "S2 step windows from accumulated JD", "e0e78d1")
-rev("C01", "S16 impulse applied repeatedly", "ea21725")
 rev("C01", "S3 discarded query.filter", "1377c2a")
 rev("C01", "S15 priority overwritten", "b6223f2")
-rev("C01", "S6a stale sensor_changes", "ad1daae")
-rev("C08", "S6a sensor_changes reset per job", "ad1daae")
 rev("C12", "S7 retrograde equatorial elements", "020658d")
 rev("C04", "S4 skewSymmetric row", "HEAD:skew")
 rev("C14", "S8 rectangular FoV seam", "6d5bfbe")
@@ -55,6 +52,10 @@ rev("C19", "S11b sensor_agent.measurement", "HEAD:attach")
 rev("C19", "S11 count comparison", "HEAD:importer")
 
 # ---- textual mutants ------------------------------------------------------------------------------------------------------
+# (the three reverts above that no longer apply cleanly, re-introduced on today's code)
+mut("C01", "S16 applied impulses keep being watched", "src/resonaate/dynamics/celestial.py", "            if not (isinstance(event, ScheduledImpulse) and any(event is done for done in applied))", "            if True")
+mut("C01", "S6a sensor_changes never reset", "src/resonaate/tasking/engine/centralized_engine.py", "        self.sensor_changes = {}\n        self.visibility_matrix", "        self.visibility_matrix")
+mut("C08", "S6a sensor_changes reset per job", "src/resonaate/tasking/engine/engine_base.py", "        for sensor_info in sensor_info_list:\n            self.sensor_changes[", "        self.sensor_changes = {}\n        for sensor_info in sensor_info_list:\n            self.sensor_changes[")
 mut("C01", "event window lower bound >=", "src/resonaate/data/events/__init__.py", "        event_alias.end_time_jd > julian_date_lb,", "        event_alias.end_time_jd >= julian_date_lb,")
 mut("C01", "impulse queue never pruned", "src/resonaate/agents/agent_base.py", "            elif self._time < itr_event.time and not fpe_equals(itr_event.time, self._time):", "            elif True:")
 mut("C02", "slew check dropped", "src/resonaate/sensors/sensor_base.py", "        if self.canSlew(pointing_sez):", "        if True or self.canSlew(pointing_sez):")
@@ -119,15 +120,37 @@ def resolve(commit):
 
 
 def main():
-    only = {a.upper() for a in sys.argv[1:]}
-    results = []
+    """usage: sensitivity.py [Cxx ...] [--name substring]   (runs in a scratch worktree of /repo's HEAD, never in /repo itself)"""
+    global REPO
+    args = sys.argv[1:]
+    name_filter = None
+    if "--name" in args:
+        i = args.index("--name")
+        name_filter = args[i + 1]
+        del args[i:i + 2]
+    only = {a.upper() for a in args}
     outp = ROOT / "sensitivity.json"
-    if outp.exists() and only:
-        results = [r for r in json.loads(outp.read_text()) if r["property"] not in only]
+    results = json.loads(outp.read_text()) if outp.exists() else []
+    wt = tempfile.mkdtemp(prefix="vfsens-wt-")
+    os.rmdir(wt)
+    r = sh("git", "-C", "/repo", "worktree", "add", "--detach", wt, "HEAD")
+    assert r.returncode == 0, r.stderr
+    REPO = wt
+    try:
+        return _run(only, name_filter, results, outp)
+    finally:
+        sh("git", "-C", "/repo", "worktree", "remove", "--force", wt)
+        subprocess.run(["rm", "-rf", wt])
+
+
+def _run(only, name_filter, results, outp):
     for prop, name, kind, spec in M:
         if only and prop not in only:
             continue
-        assert clean(), "/repo must be clean"
+        if name_filter and name_filter not in name:
+            continue
+        results[:] = [r for r in results if not (r["property"] == prop and r["change"] == name)]
+        assert clean(), "scratch worktree must be clean"
         entry = {"property": prop, "change": name, "kind": kind}
         try:
             if kind == "mutant":
@@ -150,7 +173,7 @@ def main():
                     entry["result"] = "not applicable: revert conflicts with later fixes"
                     results.append(entry)
                     continue
-            env = dict(os.environ, VF_NO_EVIDENCE="1", VF_REPLAY_DIR=tempfile.mkdtemp(prefix="vfsens-"))
+            env = dict(os.environ, VF_NO_EVIDENCE="1", VF_REPO_SRC=f"{REPO}/src", VF_REPLAY_DIR=tempfile.mkdtemp(prefix="vfsens-"))
             t0 = time.time()
             r = sh("./check", prop, "--tier", "quick", cwd=str(ROOT), env=env)
             entry["seconds"] = round(time.time() - t0, 1)
@@ -163,6 +186,8 @@ def main():
             sh("git", "-C", REPO, "reset", "--hard", "-q", "HEAD")
         print(prop, name, "->", entry["result"], entry.get("seconds"), flush=True)
         results.append(entry)
+        order = {(m[0], m[1]): i for i, m in enumerate(M)}
+        results[:] = sorted((r for r in results if (r["property"], r["change"]) in order), key=lambda r: (r["property"], order[(r["property"], r["change"])]))
         outp.write_text(json.dumps(results, indent=1))
     return 0
 
